@@ -1,4 +1,4 @@
-import Secp.Proofs.DecodeRT
+import Secp.Proofs.SpecPt
 import Secp.Proofs.MapToCurve
 /-!
 # The specification's affine chord-and-tangent addition `Spec.padd` is the group law
